@@ -374,7 +374,12 @@ func checkC05Shape(c C05ShapeCase) error {
 	if c.Y != nil {
 		ctx.Set("y", c.Y)
 	}
-	for _, form := range []string{"{{ %s }}", "{%% if %s %%}t{%% endif %%}", "{%% for q in %s %%}{{ q }}{%% endfor %%}", "{%% set v = %s %%}{{ v }}"} {
+	forms := []string{"{{ %s }}", "{%% if %s %%}t{%% endif %%}", "{%% for q in %s %%}{{ q }}{%% endfor %%}", "{%% set v = %s %%}{{ v }}"}
+	if c.Y == nil {
+		// the value as the name of a template (a string, a list of candidates, anything else)
+		forms = append(forms, "{%% include %s %%}", "{%% include %s ignore missing with {'a': 1} only %%}")
+	}
+	for _, form := range forms {
 		src := fmt.Sprintf(form, c.Expr)
 		e := twig.New()
 		r := guardT(c05Watchdog, func() (string, error) {
@@ -442,7 +447,7 @@ func c05Big(el func(i int) *E) *E {
 
 var c05UnaryExprs = []string{"x", "not x", "-x", "+x", "x|abs", "x|upper", "x|lower", "x|trim", "x|capitalize", "x|title", "x|length", "x|first", "x|last", "x|reverse", "x|sort", "x|keys", "x|join(',')", "x|join", "x|split(',')", "x|slice(1)", "x|slice(0, 2)", "x|slice(-1)",
 	"x|default('d')", "x|escape", "x|e", "x|raw", "x|striptags", "x|nl2br", "x|spaceless", "x|url_encode", "x|json_encode", "x|round", "x|round(1, 'ceil')", "x|number_format(2)", "x|number_format", "x|date('Y-m-d')", "x|format('a')", "x|replace('a', 'b')", "x|replace({'a': 'b'})",
-	"x|merge([1])", "x|merge({'a': 1})", "x|merge(x)", "x|count", "x|trim('a')", "x.a", "x.Name", "x.k", "x['a']", "x['k']", "x[0]", "x[1]", "x[-1]", "x[undefined]", "x[null]", "x['0']", "x.a.b", "x[0][0]", "x.Tags[0]", "x.Author", "x.Author.Name", "x.Author.Tags[0]", "x.Meta", "x.Meta.k", "x.Inner", "x.Inner.Z", "x.Count", "x.Label", "x.Twice", "x.Label|upper", "x.Twice + 1", "x.N",
+	"x|merge([1])", "x|merge({'a': 1})", "x|merge(x)", "x|count", "x|trim('a')", "x.a", "x.Name", "x.k", "x['a']", "x['k']", "x[0]", "x[1]", "x[-1]", "x[undefined]", "x[null]", "x['0']", "x.a.b", "x[0][0]", "x.Tags[0]", "x.Author", "x.Author.Name", "x.Author.Tags[0]", "x.Meta", "x.Meta.k", "x.Inner", "x.Inner.Z", "x.Count", "x.Label", "x.Twice", "x.String", "x.Hours", "x.Seconds", "x.Year", "x.Unix", "x.String is defined", "x.Hours is defined ? 1 : 0", "x.Label|upper", "x.Twice + 1", "x.N",
 	"x is defined", "x is empty", "x is null", "x is even", "x is odd", "x is iterable", "x is divisible_by(2)", "x is divisible_by(0)", "x is same_as(x)", "x is constant('a')", "x is starts_with('a')", "x is matches('/a/')", "x is matches('[')",
 	"max(x)", "min(x)", "max(x, 1)", "length(x)", "range(x)", "range(1, x)", "range(1, 3, x)", "range(x, x, x)", "cycle(x, 1)", "cycle(x, -1)", "cycle([1,2], x)", "merge(x, x)", "merge(x, [1])", "dump(x)", "json_encode(x)", "date(x)", "date(x, 'Y')", "random(x)", "constant(x)",
 	"x ? 1 : 2", "x ?: 'd'", "x ?? 'd'", "x ~ x", "x in x", "x matches x", "x starts with x", "x ends with x", "x == x", "x < x", "x + x", "x - x", "x * x", "x / x", "x % x", "x ^ x", "x and x", "x or x", "x|batch(2)", "x|first|first", "x|last.a", "x|keys|first", "x|sort|first", "x|reverse|join"}
@@ -458,7 +463,7 @@ var c05ConstExprs = []string{"range(9223372036854775806, 9223372036854775807)|le
 	"1|round(9223372036854775807)", "1.5|number_format(2147483647)|length < 0", "random(9223372036854775807) >= 0", "random(-9223372036854775807) <= 0", "cycle([1, 2], 9223372036854775807)", "cycle([1, 2], -9223372036854775807)"}
 
 func TestC05Shapes(t *testing.T) {
-	r := NewRec(t, "C05", "bounded exhaustive: ~125 unary expressions (every operator, filter, function and test of the core extension, attribute/index access incl. x[undefined]) x ~60 Go value shapes (nil, scalars of every width, strings, untyped and typed slices (also named ones and slices of error / Stringer / slices / maps), arrays (also of interface{}), untyped and typed maps incl. non-string keys, structs, pointers incl. nil, time, []byte, named types, Stringer), and ~50 binary expressions x all pairs of 22 representative shapes (incl. strings hostile as patterns/separators/formats and 60-element lists of scalars, lists and maps), each in print / if / for / set position; 25 expressions over constants at the edges of the integer range; non-trivial = the value is not a map[string]interface{} / []interface{} / string / int")
+	r := NewRec(t, "C05", "bounded exhaustive: ~125 unary expressions (every operator, filter, function and test of the core extension, attribute/index access incl. x[undefined]) x ~60 Go value shapes (nil, scalars of every width, strings, untyped and typed slices (also named ones and slices of error / Stringer / slices / maps), arrays (also of interface{}), untyped and typed maps incl. non-string keys, structs, pointers incl. nil, time, []byte, named types, Stringer), and ~50 binary expressions x all pairs of 22 representative shapes (incl. strings hostile as patterns/separators/formats and 60-element lists of scalars, lists and maps), each in print / if / for / set position (the unary ones also as the template name of an include); 25 expressions over constants at the edges of the integer range; non-trivial = the value is not a map[string]interface{} / []interface{} / string / int")
 	defer r.Flush()
 	r.SetExhaustive()
 	shapes := c05Shapes()
